@@ -113,7 +113,7 @@ fn run_hist<B: StarkField, H: ElementHasher<BaseField = B>, D: DrawExt<B>>(hname
             },
             "reseed" => {
                 hlog_enable(false);
-                let d = H::hash(&[o.a as u8, 0xd1]);
+                let d = if o.a == 3 { <H::Digest as Default>::default() } else { H::hash(&[o.a as u8, 0xd1]) };
                 hlog_enable(true);
                 coin.as_mut().unwrap().reseed(d);
                 json!({"ev": "reseed", "id": o.a, "data": d.as_bytes().to_vec(), "calls": calls_json()})
